@@ -84,7 +84,7 @@ def replay(ctx, res, runs, name, binary, evm_every):
         nonlocal edges, chunks, nedges
         first.lines = {"EDGE": edges}
         vf.replay_edges(ctx, res, first, "jumpdest", name=name if chunks == 0 else "%s_%d" % (name, chunks),
-                        binary=binary, expect_ops=["analyse", "execute", "evm"])
+                        binary=binary, expect_ops=["analyse", "execute", "evm"] if chunks == 0 else ["analyse", "execute"])
         first.distinct = first.generated = 0          # count the TLC states once
         nedges += len(edges)
         chunks += 1
